@@ -89,7 +89,8 @@ class Writer:
     str
       The string representation
     """
-    fieldname = self.__class__.FIELD_ALIAS.get(fieldname, fieldname)
+    if fieldname not in self._data:
+      fieldname = self.__class__.FIELD_ALIAS.get(fieldname, fieldname)
     v = self._data.get(fieldname, None)
     if v is None:
       raise gfapy.NotFoundError("Field {} not found".format(fieldname))
